@@ -287,7 +287,7 @@ class Verifier:
         return vals
 
     # ------------------------------------------------------------------ verification of a function body
-    def verify(self, cname: str, prop: str, types=None, extra_pre=None, tag="", fixed=None, prelude=None):
+    def verify(self, cname: str, prop: str, types=None, extra_pre=None, tag="", fixed=None, prelude=None, ghost=None):
         """Obligations for contract `cname` against the real body of its target.
 
         types: overrides of parameter type specs (e.g. one geometry type at a time)
@@ -322,6 +322,10 @@ class Verifier:
                 raise Unsupported(f"contract {cname}: no type for parameter {nm}")
         if cls is not None and not is_class:
             self._method_cls = c.target.replace(":", ".").rsplit(".", 1)[0]
+        for nm, spec in (ghost or {}).items():
+            # ghost values: named in the contract (entry state of an object, a universally quantified probe) but not
+            # parameters of the function
+            values[nm] = spec(sb) if callable(spec) else sb.make(spec, nm)
         bg = list(sb.wf)
         ex = Exec(self.repo, m, self.handlers, self.inline, c.mode, True, 120, bg, self.numeric, self.trace)
         ex.inline_prefixes = ("contracts.",)
